@@ -137,13 +137,17 @@ def edgesRunT : List (Node × Node) :=
     [(Node.run t, Node.ready t), (Node.run t, Node.runnable t)] ++
     (D.trans.filter fun t' => D.adj t t' && decide (D.pos t' < D.pos t)).map fun t' => (Node.run t, Node.run t')
 
+/-- the call sites whose enables `runnable t` reads: those on a chain from `t` to a method with
+`validate_arguments` (manager.py:531-537 `call.enable`) -/
+def valEn (t : BodyId) : List Site :=
+  D.sites.filter fun s => D.meths.any fun m => m.validate && D.onChain t s m.id
+
 /-- manager.py:539-546 -/
 def edgesRunnable : List (Node × Node) :=
   D.trans.flatMap fun t =>
     ((D.readyFor t).flatMap fun b =>
       (Node.runnable t, Node.ready b) :: (D.readyDeps b).map fun d => (Node.runnable t, Node.run d)) ++
-    ((D.sites.filter fun s => D.meths.any fun m => m.validate && D.onChain t s m.id).map fun s =>
-      (Node.runnable t, Node.en s.id)) ++
+    ((D.valEn t).map fun s => (Node.runnable t, Node.en s.id)) ++
     ((D.sites.filter fun s => (D.readyFor t).contains s.caller &&
         D.meths.any fun m => m.validate && m.id == s.callee && decide (0 < m.inW)).map fun s =>
       (Node.runnable t, Node.arg s.id))
@@ -216,6 +220,50 @@ def ruleReady : Bool :=
 /-- `ready_dependent` only occurs on `schedule_before` relations (transaction_base.py:92-100) -/
 def rdWf : Bool := D.rels.all fun r => !r.readyDep || (!r.conflict && r.prio == .left)
 
+/-! ### run-derived enables
+
+`en s ← run d` makes everything that runs *through* site `s` (its callee and the callee's call closure)
+depend on the callers of `d`, which the priority order knows nothing about.  The side condition `enOk`
+asks that every signal through which such a run feeds back into the scheduling of a transaction is
+consumed only at positions after **all** callers of `d`. -/
+
+def foldMax (l : List Nat) : Nat := l.foldl max 0
+def foldMin (n : Nat) (l : List Nat) : Nat := l.foldl min n
+
+/-- latest position among the transactions that run `b` -/
+def hi (b : BodyId) : Nat := foldMax ((D.transFor b).map D.pos)
+/-- earliest position among the transactions that run `b` (`order.length` if nobody does) -/
+def lo (b : BodyId) : Nat := foldMin D.order.length ((D.transFor b).map D.pos)
+
+/-- the enable of site `sid` is derived from some run signal -/
+def derived (sid : SiteId) : Bool := D.enReads.any fun p => p.1 == sid
+
+/-- `run b` reads the enable of site `sid`: `b` is the callee of the site or in the callee's call closure -/
+def inDown (sid : SiteId) (b : BodyId) : Bool :=
+  D.sites.any fun s => s.id == sid && (s.callee == b || (D.R s.callee).contains b)
+
+/-- `run b` reads some run-derived enable -/
+def isDown (b : BodyId) : Bool := D.enReads.any fun p => D.inDown p.1 b
+
+/-- latest caller position of the runs that the enable of `sid` is derived from -/
+def he (sid : SiteId) : Nat := foldMax ((D.enReads.filter fun p => p.1 == sid).map fun p => D.hi p.2)
+
+/-- latest caller position of the runs that `run b` reads through run-derived enables -/
+def heDown (b : BodyId) : Nat := foldMax ((D.enReads.filter fun p => D.inDown p.1 b).map fun p => D.hi p.2)
+
+/-- side condition for run-derived enables (trivially true when `enReads = []`):
+1. derived enables are not stacked (the source of a derived enable does not itself run through one);
+2. a readiness that reads `run b'`, with `b'` running through a derived enable, belongs to a body all of whose
+   callers come after every caller of the enable's sources;
+3. the same for ready dependencies `d → b`;
+4. a derived enable read by a `validate_arguments` term of transaction `t` has all its sources' callers before `t`.
+The designs of findings F-c10-1 (4 fails) and F-c10-2 (3 resp. 2 fails) are exactly the ones it excludes. -/
+def enOk : Bool :=
+  D.enReads.all (fun p => !D.isDown p.2) &&
+  D.readyReads.all (fun p => !D.isDown p.2 || decide (D.heDown p.2 < D.lo p.1)) &&
+  D.rels.all (fun r => !r.readyDep || !D.isDown r.src || decide (D.heDown r.src < D.lo r.dst)) &&
+  D.trans.all (fun t => (D.valEn t).all fun s => !D.derived s.id || decide (D.he s.id < D.pos t))
+
 /-- sanity of the extracted description: methods are not transactions, callees are methods -/
 def wf : Bool :=
   D.meths.all (fun m => !D.isTrans m.id) &&
@@ -232,18 +280,20 @@ def Node.isDataIn : Node → Bool
   | _ => false
 
 /-- certificate for the user's data flow: a rank that decreases along it, and the set of *closed*
-data nodes (those whose value does not depend on any `data_in`, i.e. on who runs) -/
+data nodes (those whose value does not depend on who runs: no `data_in` whose argument multiplexer
+looks at the callers' runs is reachable from them) -/
 structure DataCert where
   dr : Node → Nat
   cl : Node → Bool
 
-/-- data rule: data is computed from data only, the data flow has no loop of its own, and the
-arguments inspected by `validate_arguments` are closed -/
+/-- data rule: data is computed from data only, the data flow (argument multiplexers included) has no loop of
+its own, closed nodes read closed nodes only, a `data_in` whose multiplexer reads runs/enables is not closed,
+and the arguments inspected by `validate_arguments` are closed.  Excluded: the two shapes of finding F-c10-3. -/
 def Design.dataOk (D : Design) (c : DataCert) : Bool :=
   D.dataReads.all (fun p => p.1.isData && p.2.isData && !p.1.isDataIn &&
     decide (c.dr p.2 < c.dr p.1) && (!c.cl p.1 || c.cl p.2)) &&
-  D.edgesDataIn.all (fun p => !p.2.isData || decide (c.dr p.2 < c.dr p.1)) &&
-  D.meths.all (fun m => !c.cl (.dataIn m.id)) &&
+  D.edgesDataIn.all (fun p =>
+    if p.2.isData then decide (c.dr p.2 < c.dr p.1) && (!c.cl p.1 || c.cl p.2) else !c.cl p.1) &&
   D.edgesRunnable.all (fun p => !p.2.isData || c.cl p.2)
 
 /-! ## executable cycle detection by a rank certificate -/
@@ -312,10 +362,11 @@ def openLoop (es : List (Node × Node)) : Nat → List Node → List Node
     let more := (es.filter fun p => o.contains p.2 && !o.contains p.1).map (·.1)
     if more.isEmpty then o else openLoop es fuel (o ++ more.eraseDups)
 
-/-- the canonical data certificate: levels of the data edges; closed = no `dataIn` reachable -/
+/-- the canonical data certificate: levels of the data edges; closed = no `dataIn` with a run-reading
+argument multiplexer reachable -/
 def Design.dataCert (D : Design) : DataCert :=
   let es := D.dataEdges
-  let opn := openLoop es (es.length + 1) (D.meths.map fun m => Node.dataIn m.id)
+  let opn := openLoop es (es.length + 1) ((D.edgesDataIn.filter fun p => !p.2.isData).map (·.1)).eraseDups
   let lv := levelArr es
   { dr := levelOf lv, cl := fun x => x.isData && !opn.contains x }
 
